@@ -27,7 +27,7 @@ pub fn prop() -> HistProp {
         run_cfg: rc,
         gen_cfg: gc,
         nontrivial,
-        quick_cases: 8000,
+        quick_cases: 16000,
         thorough_cases: 150000,
         pressure_cases: (3000, 50000),
         assumptions: vec!["differential oracle, independent of the reference model", "documented preconditions of DESIGN 4.3"],
